@@ -1,5 +1,6 @@
 import Ecal.Drivers.Util
 import Ecal.Model.PrattTable
+import Ecal.Lemmas.C08RealParse
 /-!
 Driver of C08. Payload (space separated; see go/cmd/harness/c08.go):
   `<src-hex> <flags: 1 = evaluated, 2 = FormatFiles run> <node>` with
@@ -190,11 +191,26 @@ partial def leftLeaf (n : Node) : Node :=
     | _ => n
   else n
 
-/-- a mutex or sink statement followed by a statement that is not already preceded by a blank line
+/-- a statement whose text ends in a mutex / sink block (the statement itself or its last operand, transitively),
+    followed by a statement that is not already preceded by a blank line
     (their templates end in a newline: a blank line appears, and one more on the next run) -/
+partial def endsInBlockNl (n : Node) : Bool :=
+  if n.name = "mutex" || n.name = "sink" then true
+  else if n.children.isEmpty || ["statements", "list", "map", "funccall", "if", "loop", "try", "function", "identifier",
+      "compaccess", "params"].contains n.name then false
+  else match n.children.getLast? with
+    | some (some c) => endsInBlockNl c
+    | _ => false
+
+/-- a bare return that is not a statement (operand, list element, call argument): the printer joins it with what
+    follows on its line — `[return` NEWLINE `]` is printed `[return]`, which does not parse -/
+partial def bareReturnOperand (n : Node) (sp : Bool) : Bool :=
+  (n.name = "return" && n.children.isEmpty && !sp) ||
+  n.children.any fun c => match c with | some c => bareReturnOperand c (n.name = "statements") | none => false
+
 def blockThenStatement (n : Node) : Bool :=
   anyNode (fun x => x.name = "statements" &&
-    pairsAny (fun a b => (a.name = "mutex" || a.name = "sink") &&
+    pairsAny (fun a b => endsInBlockNl a &&
       (match (leftLeaf b).tok with | some t => t.prefixNl ≤ 1 | none => true)) x.children) n
 
 /-- the printed text of the subtree contains a newline (structural: blank line, block comment,
@@ -232,16 +248,19 @@ def endsWithBareReturn (n : Node) : Bool :=
 def runCase (payload : String) : String :=
   -- the format tool on a directory tree (FormatFiles / Format): what the property demands is fixed
   if payload.startsWith "FMT " then "fmt=ok\tnt=1" else
+  -- not a case: reports the value of the hypothesis `RP.tablesAgree` of the theorems on the real parser model
+  if payload = "TABLES" then "UNSUP\tskip=1\ttables_agree=" ++ toString Ecal.C08.RP.tablesAgree else
   match payload.splitOn " " with
   | _src :: flags :: rest =>
     let ev := flags
     let ff := flags = "2" || flags = "3"
     match parseNode rest with
     | some (some ast, []) =>
-      match prettyPrint (some ast) with
-      | .error .panic => "PANIC-PREDICTED"
-      | .error .nilNode => "PPERR-PREDICTED"
-      | .ok txt =>
+      match prettyPrint (some ast), prettyPrintCanon (some ast) with
+      | .error .panic, _ => "PANIC-PREDICTED"
+      | .error .nilNode, _ => "PPERR-PREDICTED"
+      | _, .error _ => "PANIC-PREDICTED"
+      | .ok txt, .ok txtC =>
         let raw := hasRawString ast
         let mul := hasMulRight ast
         let (inside, ownBlank) := insideFlags ast true
@@ -249,7 +268,8 @@ def runCase (payload : String) : String :=
         let ev := if ev = "1" || ev = "3" then "1" else "0"
         -- inside the class the printed text must at least PARSE (`*p`) unless a # comment swallows the rest of its
         -- line or a composition access is pushed off the identifier's line
-        let mayNotParse := hasUnstablePost ast txt || hasPostfixAfterNewline ast || endsWithBareReturn ast
+        let mayNotParse := hasUnstablePost ast txt || hasPostfixAfterNewline ast || endsWithBareReturn ast ||
+          bareReturnOperand ast true
         let post := hasUnstablePost ast txt || hasPostfixAfterNewline ast || inside
         let wild := post || ownBlank || hasPreComment ast || blockThenStatement ast
         -- cross-check of the expression-level model (the one the theorems are about)
@@ -276,9 +296,14 @@ def runCase (payload : String) : String :=
           -- inside the classes with rt=diff the trees must agree modulo the known LOCAL difference (raw flag,
           -- product association); a merged statement (sign / parenthesis start) is a genuine difference
           let eqm := if sign then "diff" else "ok"
-          let line (rt : String) := "txt=" ++ hexEnc txt ++ " rt=" ++ rt ++ " idem=" ++ idem ++
+          -- the format tool: the file is left unchanged or parses to a tree equal to the original (modulo the known
+          -- local differences); free inside the newline class (never "broken"); a merged statement is a real difference
+          let ffv := if post then "*" else if sign then "diff" else "ok"
+          -- string literals in canonical spelling, unless a # comment swallows the rest of its line
+          let txtC := if hasUnstablePost ast txt then txt else txtC
+          let line (rt : String) := "txt=" ++ hexEnc txtC ++ " rt=" ++ rt ++ " idem=" ++ idem ++
             (if rt = "diff" then " eqm=" ++ eqm else "") ++
-            (if ff then " ff=ok" else "") ++
+            (if ff then " ff=" ++ ffv else "") ++
             (if ev = "1" && (rt = "ok" || (rt = "diff" && eqm = "ok")) && !hasRawInterp ast then " beh=ok" else "")
           let kf : Option String :=
             if post then some "newline-inside-statement"
@@ -289,7 +314,7 @@ def runCase (payload : String) : String :=
             else if wild then some "layout-not-idempotent"
             else none
           let specRt := if post then "ok" else "ok"
-          let specLine := "txt=" ++ hexEnc txt ++ " rt=" ++ specRt ++ " idem=ok" ++ (if ff then " ff=ok" else "") ++ (if ev = "1" && !hasRawInterp ast then " beh=ok" else "")
+          let specLine := "txt=" ++ hexEnc txtC ++ " rt=" ++ specRt ++ " idem=ok" ++ (if ff then " ff=ok" else "") ++ (if ev = "1" && !hasRawInterp ast then " beh=ok" else "")
           line rt
             ++ (if countNodes ast ≥ 3 then "\tnt=1" else "")
             ++ (if xc then "\txc=1" else "")
